@@ -2,14 +2,43 @@
    case and renders the result the way harness/src/bin/c19/typed.rs renders the implementation's. *)
 From Coq Require Import String.
 From AV Require Import Lib.Base Lib.V.
-From AV Require Import Panic.Str Panic.CDisp Panic.RangeHdr Panic.ConnInfo Panic.HdrWriter.
+From AV Require Import Panic.Str Panic.CDisp Panic.RangeHdr Panic.ConnInfo Panic.HdrWriter Panic.HeadPhase.
+From AV Require Gen.Consts.
 Open Scope N_scope.
+
+(* long buffers are described structurally *)
+Inductive piece := Lit (b : bytes) | Rep (n : N) (b : N).
+Definition bytes_of (ps : list piece) : bytes :=
+  flat_map (fun p => match p with Lit b => b | Rep n b => repeat b (N.to_nat n) end) ps.
+(* httparse's answer as the harness observed it; header entries are (name offset, name length,
+   value offset, value length) relative to the start of the buffer *)
+Inductive hpr := HPp | HPe | HPc (len minor : N) (hs : list (N * N * N * N)).
 
 Inductive case :=
 | KCd (hv : bytes) (langs_ok : list bytes)      (* langs_ok: the pieces language-tags accepts *)
 | KRange (s : bytes) (full : N)
 | KConn (fwd : list bytes) (xp xh xf host : option bytes)
-| KEnc (dlen cap : N) (hdrs : list (N * N)).
+| KEnc (dlen cap : N) (hdrs : list (N * N))
+| KHeadReq (buf : list piece) (hp : hpr) (method_ok uri_ok is_post is_connect : bool)
+| KHeadResp (buf : list piece) (hp : hpr) (code : N).
+
+Definition BASE : N := 4096.   (* the buffer's address in the pointer arithmetic of `record` *)
+Definition hp_of (h : hpr) : hp_res :=
+  match h with
+  | HPp => HPartial
+  | HPe => HError
+  | HPc len minor hs =>
+      HComplete (mkParsed len true minor
+        (map (fun q : N * N * N * N => let '(no, nl, vo, vl) := q in mkHdr (BASE + no) nl (BASE + vo) vl) hs))
+  end.
+Definition VDres (r : R dres) : V :=
+  match r with
+  | Panic => VT "panic" []
+  | Val DNone => VT "none" [] | Val DTooLarge => VT "toolarge" [] | Val DParseErr => VT "perr" []
+  | Val DMethod => VT "emethod" [] | Val DUri => VT "euri" [] | Val DStatus => VT "estatus" []
+  | Val DHeader => VT "eheader" []
+  | Val (DOk n k) => VT "ok" [VN n; VN k]
+  end.
 
 Definition VPanic : V := VT "panic" [].
 
@@ -69,4 +98,12 @@ Definition run_C19 (c : case) : V :=
       | Panic => VPanic
       | Val (l, _) => VT "enc" [VN (l - dlen)]
       end
+  | KHeadReq ps h mo uo post conn =>
+      let buf := bytes_of ps in let hp := hp_of h in
+      VT "head" [VBool (hp_okb Consts.H1_MAX_HEADERS BASE buf hp);
+                 VDres (request_decode Consts.H1_MAX_HEADERS Consts.H1_MAX_BUFFER_SIZE true buf BASE hp mo uo post conn)]
+  | KHeadResp ps h code =>
+      let buf := bytes_of ps in let hp := hp_of h in
+      VT "head" [VBool (hp_okb Consts.H1_MAX_HEADERS BASE buf hp);
+                 VDres (response_decode Consts.H1_MAX_HEADERS Consts.H1_MAX_BUFFER_SIZE true buf BASE hp code)]
   end.
